@@ -38,11 +38,6 @@ def localname (q : QName) : Str :=
   let t := q.text.dropWhile (· == '{')
   (afterBrace t).getD t
 
-/-- `HTMLSanitizer.is_safe_elem(tag, attrs)` -/
-def isSafeElem (cfg : Cfg) (tag : QName) (attrs : AttrList) : Bool :=
-  cfg.safeTags.contains tag.text &&
-    !(localname tag == inputWord && pyLower (attrGet attrs typeWord) == passwordWord)
-
 def stripRefsFix : Nat → Str → Except Err Str
   | 0, s => .ok s
   | f + 1, s => do
@@ -52,6 +47,20 @@ def stripRefsFix : Nat → Str → Except Err Str
 /-- `decoded = stripentities(value); while decoded != value: …`: references are decoded until
     none is left (every round that changes the text shortens it) -/
 def stripRefs (s : Str) : Except Err Str := stripRefsFix (s.length + 1) s
+
+/-- the same loop where the caller returns a `bool` (`is_safe_elem`): `stripentities` has no
+    reachable failure point (`stripRefs_ok`), so the error branch is dead; the correspondence
+    stream `is_safe_elem` compares exceptions too -/
+def stripRefsD (s : Str) : Str :=
+  match stripRefs s with
+  | .ok v => v
+  | .error _ => s
+
+/-- `HTMLSanitizer.is_safe_elem(tag, attrs)` (as repaired in wave 4: the `type` value is decoded
+    until no reference is left before it is lower-cased and compared) -/
+def isSafeElem (cfg : Cfg) (tag : QName) (attrs : AttrList) : Bool :=
+  cfg.safeTags.contains tag.text &&
+    !(localname tag == inputWord && pyLower (stripRefsD (attrGet attrs typeWord)) == passwordWord)
 
 /-- the body of the attribute loop: `none` = `continue` -/
 def sanAttr (cfg : Cfg) (a : QName × Str) : Except Err (Option (QName × Str)) := do
